@@ -73,6 +73,10 @@ func (s *Server) referrerGet(repoStr, arg string) http.HandlerFunc {
 					next.RawQuery = q.Encode()
 					w.Header().Add("Link", fmt.Sprintf("<%s>; rel=next", next.String()))
 				}
+				if filterAT != "" {
+					// cached responses are stored per filter
+					w.Header().Add(referrerFilterATHeaderKey, referrerFilterATHeaderValue)
+				}
 				w.Header().Add("content-type", types.MediaTypeOCI1ManifestList)
 				w.WriteHeader(http.StatusOK)
 				_, err = w.Write(cacheResp[page])
@@ -115,6 +119,10 @@ func (s *Server) referrerGet(repoStr, arg string) http.HandlerFunc {
 				q.Set("page", fmt.Sprintf("%d", page+1))
 				next.RawQuery = q.Encode()
 				w.Header().Add("Link", fmt.Sprintf("<%s>; rel=next", next.String()))
+			}
+			if filterAT != "" {
+				// cached responses are stored per filter
+				w.Header().Add(referrerFilterATHeaderKey, referrerFilterATHeaderValue)
 			}
 			w.WriteHeader(http.StatusOK)
 			_, err = w.Write(cacheResp[page])
